@@ -3,6 +3,8 @@
 package zzvh
 
 import (
+	"strconv"
+
 	mod "github.com/craterdog/go-collection-framework/v4"
 	age "github.com/craterdog/go-collection-framework/v4/agent"
 	cdc "github.com/craterdog/go-collection-framework/v4/cdcn"
@@ -473,5 +475,61 @@ func VF_C11_Schedules(i, _ int) {
 		vf.Assert("same-diagnostic", p && len(msg) > 20 && msg[:20] == "An unexpected token ")
 	}
 	vf.Assert("no-goroutine-left", vf.Quiesce() == 0)
+	vf.Reach("end")
+}
+
+// VF_C11_LongTokens: a single literal much longer than any internal buffer or queue capacity is still one
+// token with its exact value.  kind 0: a quoted string of c11long[i] characters, two of them symbolic
+// (printable ASCII other than the quote and the backslash); kind 1: a float with that many fraction digits.
+var c11long = []int{40, 200, 254, 255, 256, 257, 300, 520, 1100}
+
+func VF_C11_LongTokens(i, kind int) {
+	L := c11long[i]
+	vf.Budget(60000000)
+	if kind == 0 {
+		x, y := vf.Byte("x"), vf.Byte("y")
+		ok := func(b byte) bool { return vf.And(vf.And(b >= ' ', b <= '~'), vf.And(b != '"', b != '\\')) }
+		vf.Assume(vf.And(ok(x), ok(y)))
+		body := make([]byte, L)
+		for k := range body {
+			body[k] = 'a' + byte(k%26)
+		}
+		body[L/2] = x
+		body[L-1] = y
+		content := string(body)
+		src := "[\"" + content + "\"](List)\n"
+		var v any
+		p, _ := vf.Panics(func() { v = mod.ParseSource(src) })
+		vf.Assert("long-string-accepted", !p)
+		if !p {
+			got, isSeq := seqOf(v)
+			vf.Assert("one-value", isSeq && len(got) == 1)
+			if isSeq && len(got) == 1 {
+				s, isStr := got[0].(string)
+				vf.Assert("long-string-value", isStr && vf.StrEq(s, content))
+			}
+		}
+	} else {
+		digits := make([]byte, L)
+		for k := range digits {
+			digits[k] = '0' + byte((k*7+3)%10)
+		}
+		text := "0." + string(digits)
+		src := "[" + text + "](List)\n"
+		var v any
+		p, _ := vf.Panics(func() { v = mod.ParseSource(src) })
+		// a float that long cannot be represented exactly: the parser may reject it (with a diagnostic), but
+		// if it accepts it the result is one value, the correctly rounded float
+		if !p {
+			got, isSeq := seqOf(v)
+			vf.Assert("one-value", isSeq && len(got) == 1)
+			if isSeq && len(got) == 1 {
+				f, isF := got[0].(float64)
+				want, _ := strconv.ParseFloat(text, 64)
+				vf.Assert("long-float-value", isF && f == want)
+			}
+		}
+	}
+	vf.BudgetReset()
 	vf.Reach("end")
 }
